@@ -27,6 +27,8 @@ def window(o1: int, e1: int, h1: int, o2: int, e2: int, h2: int, order: bool, o3
     pre: 0 <= e1 < P["ne"] and 0 <= e2 < P["ne"] and 0 <= e3 < P["ne"] and 0 <= ep < P["ne"]
     pre: o1 == P["o1"] and e1 == P["e1"] and 0 <= h1 <= 2 and 0 <= h2 <= 2 and 0 <= h3 <= 2
     pre: P["third"] or (o3 == 0 and e3 == 0 and h3 == 2)
+    pre: P["node_answers"] or (h1 != 1 and h2 != 1 and h3 != 1)
+    pre: (h1 == 0 and h2 == 0) or not order
     post: _
     """
     hx.begin()
@@ -86,14 +88,14 @@ def specs(tier, seed, carve):
     q = tier == "quick"
     out = []
     ne = 2
-    for size in (1, 2, 3):
+    for size in ((1, 2) if q else (1, 2, 3)):
         for o1 in (0, 1):
             for e1 in range(ne):
-                third = (size <= 2)
-                if q and third and (o1, e1) != (0, 0):
-                    third = False
-                out.append(dict(id="window/size%d/o%d_e%d%s" % (size, o1, e1, "/third" if third else ""), fn="window",
-                                params={"size": size, "o1": o1, "e1": e1, "ne": ne, "third": third}, timeout=1500 if third else 600,
-                                bound="window size %d; first request (origin %d, id %d); second%s request and the probed request fully symbolic over 2 origins x %d ids x T; each earlier request answered by app / by node / pending; both answer orders" % (
-                                    size, o1, e1, " and third" if third else "", ne)))
+                for third in ((False,) if q else (False, True)):
+                    if third and size == 3:
+                        continue
+                    out.append(dict(id="window/size%d/o%d_e%d%s" % (size, o1, e1, "/third" if third else ""), fn="window",
+                                    params={"size": size, "o1": o1, "e1": e1, "ne": ne, "third": third, "node_answers": not q}, timeout=6000 if third else 900,
+                                    bound="window size %d; first request (origin %d, id %d); second%s request and the probed request fully symbolic over 2 origins x %d ids x T; each earlier request answered by the application%s or left pending; both answer orders" % (
+                                        size, o1, e1, " and third" if third else "", ne, "" if q else " / by the node (3007)")))
     return out
